@@ -3,9 +3,10 @@ CONSTANTS
   Reqs <- ReqsSame
   Parts <- P112
   RegAfter <- RegFirst
+  KeyOf <- IdKey
   Dups = {}
   LookupAtomic = TRUE
   FailIdx = {3}
-INVARIANTS NoSpurious MatchOnce NoLoss RegisterFirst
+INVARIANTS NoSpurious MatchOnce NoLoss RightType RegisterFirst
 CHECK_DEADLOCK FALSE
 VIEW McView
